@@ -62,6 +62,8 @@ CORPORA = {
     "hperm": dict(kind="mutate", gen="perm_cases", gen_all_files=True, base=["hfields", "hgetters", "hdst", "hwalk"],
                   quick=dict(count=1000), thorough=dict(count=20000), profiles=DEV_REL, place="end"),
     "xcast": dict(model="MC_XCast", quick={}, thorough={}, profiles=DEV_REL, place="both"),
+    "repo": dict(kind="mutate", gen="repo_cases", gen_all_files=True, base=["fields", "hfields"],
+                 quick=dict(count=0), thorough=dict(count=0), profiles=DEV_REL, place="both"),
     "load": dict(model="MC_Load", quick=dict(MaxT=72), thorough=dict(MaxT=160), profiles=DEV_REL, place="both"),
     "walk": dict(model="MC_Walk", quick=dict(MaxT=32), thorough=dict(MaxT=40), profiles=DEV_REL, place="both"),
 }
@@ -116,7 +118,7 @@ CHECKS = {
                 rule="all (length 0..MaxLen, magic right/one-bit-off/zero, checksum right/+1/-1/zero, both architectures) + null; "
                      "calc_checksum on 54 boundary (magic, arch, length) triples judged on 16-bit limbs; all 2^32 lengths x both architectures "
                      "(Multiboot2 magic; two more magics on a sub-grid) swept natively against the congruence the property states"),
-    "C11": dict(thorough_extra=["hmut", "hsession"], corpora=["hfields", "hgetters", "hwalk"],
+    "C11": dict(thorough_extra=["hmut", "hsession", "repo"], corpora=["hfields", "hgetters", "hwalk"],
                 rule="every header-tag kind conformant x 2 fills x 2 positions x 2 architectures, every accessor; all tag sequences "
                      "<= MaxTags over 4 kinds; all lazily chosen walks"),
     "C13": dict(corpora=["find", "findbytes"],
@@ -128,10 +130,10 @@ CHECKS = {
     "C19": dict(thorough_extra=["mut"], corpora=["elf"],
                 rule="all (count 0..MaxN, entry size in ElfSizes, string-table index 0..n+1, section bytes in {0, n*es-1, n*es, n*es+8}, "
                      "raw-type rotation); names resolved through a string table mapped at a fixed external address"),
-    "C01": dict(corpora=["fields", "getters", "dst", "sized", "custom", "fb", "rsdp", "adv", "efi", "elf", "walk", "load", "mut", "perm", "xcast"],
+    "C01": dict(corpora=["fields", "getters", "dst", "sized", "custom", "fb", "rsdp", "adv", "efi", "elf", "walk", "load", "mut", "perm", "xcast", "repo"],
                 rule="union of the boot-information corpora (every kind, every declared size, all framebuffer type bytes, "
                      "all walks); every call of every session is checked for crash/hang and for extents inside the owning tag"),
-    "C04": dict(thorough_extra=["mut", "session"], corpora=["fields", "getters", "fb", "rsdp"],
+    "C04": dict(thorough_extra=["mut", "session"], corpora=["fields", "getters", "fb", "rsdp", "repo"],
                 rule="fields: every kind at its conformant size x 2 marker fills x 2 positions, every accessor; "
                      "getters: all sequences of <= MaxTags tags over 6 kinds (duplicates use different fills); fb: all 256 type bytes"),
     "C05": dict(thorough_extra=["mut"], corpora=["dst", "fb", "hdst", "adv"],
